@@ -8,7 +8,8 @@
 #define VF_BIG 100000
 
 int vf_exc;                       /* != 0: a C++ exception is in flight */
-_Bool vf_nondet_bool(void) { _Bool x; return x; }
+_Bool vf_assign_threw;            /* ghost: a payload assignment threw (state of its target is T's business) */
+_Bool vf_nondet_bool(void) { int x; return x != 0; }
 int vf_nondet_int(void) { int x; return x; }
 unsigned long vf_nondet_ulong(void) { unsigned long x; return x; }
 
